@@ -19,6 +19,8 @@ From Verif Require Wire.Simple Wire.SimpleProofs Wire.SimpleSkip.
 From Verif Require Wire.Binc Wire.BincProofs.
 From Verif Require Generic.Types Generic.Enc Generic.Dec C01.Model.
 From Verif Require Wire.Json Wire.JsonRT Wire.JsonSkip Wire.JsonLeaf Wire.CborTime C11.InstJson C11.ProofsJson Properties.W_json.
+From Verif Require C11.JsonOracle.
+From Verif Require Wire.CborFloat C11.CborFT C11.SeqFT.
 Import ListNotations.
 
 (* ---------------- the sequence theorem, once, over the abstract laws ---------------- *)
@@ -134,6 +136,68 @@ Section Cbor.
     CborI.ok_t O D d (ITime s n) e tl.
   Proof. exact cbor_time_ok_t. Qed.
   Print Assumptions C11_cbor_time_admitted.
+
+  (* ---- the decode law extended once more (C11/CborFT.v): [lib_supports_ft] / [tdepth_ft] / [norm_ft] also admit
+     times written in the EPOCH form (tag 1; TimeRFC3339 = false) wherever they occur: an integer number of
+     seconds when the microsecond-rounded instant has no fraction, else sec + nsec/1e9 evaluated in binary64.
+     The library reads the content through DecodeFloat64 as a float64 x and returns
+     time.Unix(trunc x, frac x * 1e9).Round(Microsecond) = [time_of_float x]; the item is admitted when that is
+     not an error (|trunc x| <= 2^62).  [epoch_f64 s n] is the x read back for the instant (s, n), so the
+     decoded value — hence the exact loss — is the closed expression  time_of_float (epoch_f64 s n):
+     the encoder's rounding to the microsecond, then the binary64 rounding of sec + usec/1e6, then the
+     decoder's rounding to the microsecond again.  (C11_cbor_floattime_loss_nonvacuous: for |sec| < 2^33 —
+     years 1698..2242 — the two conversions cancel on the sampled instants and the result is the encoder's
+     microsecond rounding; from 2^33 s on, half an ulp of the double exceeds half a microsecond and
+     microseconds are lost; integer seconds beyond 2^53 lose their low bits; beyond 2^62 the decoder refuses.
+     The cancellation below 2^33 was checked numerically on 2.5 million instants, it is NOT proved for all.) ---- *)
+  Import Wire.CborFloat C11.CborFT C11.SeqFT.
+
+  (* decode and the walker stop at the same byte, for everything the epoch-form law admits *)
+  Theorem C11_cbor_extent_floattime : forall (O : eopts) (D : dopts) (i : item) (d : Z) (rest : list N),
+    wf i -> plain i -> lib_supports_ft D (tree_of O i) -> (tdepth_ft D (tree_of O i) < maxdepth D)%Z ->
+    (d + sdepth (tree_of O i) < maxdepth D)%Z ->
+    dec_naked D (fuel_for (enc O i ++ rest)) (enc O i ++ rest) = Ok (norm_ft O D i, rest)
+    /\ skip D (fuel_for (enc O i ++ rest)) d (enc O i ++ rest) = Ok rest.
+  Proof. exact cbor_extent_ft_lemma. Qed.
+  Print Assumptions C11_cbor_extent_floattime.
+
+  Theorem C11_cbor_raw_redecode_floattime : forall (O : eopts) (D : dopts) (i : item) (d : Z) (rest rest' : list N) (b : list N),
+    wf i -> plain i -> lib_supports_ft D (tree_of O i) -> (tdepth_ft D (tree_of O i) < maxdepth D)%Z ->
+    capture (enc O i ++ rest) (skip D (fuel_for (enc O i ++ rest)) d (enc O i ++ rest)) = Ok (b, rest) ->
+    (d + sdepth (tree_of O i) < maxdepth D)%Z ->
+    dec_naked D (fuel_for (b ++ rest')) (b ++ rest') = Ok (norm_ft O D i, rest').
+  Proof. exact cbor_raw_redecode_ft_lemma. Qed.
+  Print Assumptions C11_cbor_raw_redecode_floattime.
+
+  (* sequences, full for every item the epoch-form law admits ([ok_ft]: wf, plain, lib_supports_ft, nesting below
+     MaxDepth): any number of values, any consumer per position, times in either wire form anywhere in the values *)
+  Theorem C11_cbor_seq_floattime : forall (O : eopts) (D : dopts) (d : Z) (TY V : Type) (typed : TY -> item -> V)
+      (vs : list item) (ms : list (mode TY)) (tl : list N),
+    length ms = length vs -> Seq.ok_seq (Fft O D d) (ok_ft O D d) vs tt tl ->
+    exists ns,
+      Seq.dec_seq (Fft O D d) TY V typed ms (Seq.bytes_seq (Fft O D d) vs tt ++ tl)
+        = Ok (Seq.project (Fft O D d) TY V typed ms vs tt, ns, tl)
+      /\ map (fun r => length (Seq.bytes_seq (Fft O D d) vs tt ++ tl) - r)%nat ns
+         = Seq.prefix_sums 0 (map (@length N) (fst (Seq.enc_seq (Fft O D d) vs tt))).
+  Proof. exact cbor_seq_ft_lemma. Qed.
+  Print Assumptions C11_cbor_seq_floattime.
+
+  (* a time written in the epoch form meets the premises of C11_cbor_seq_floattime as soon as the library
+     accepts the float it reads back, and what it decodes to is that [time_of_float (epoch_f64 s n)] *)
+  Theorem C11_cbor_floattime_admitted : forall (O : eopts) (D : dopts) (d : Z) (s : Z) (n : N) (i : item) (e : unit) (tl : list N),
+    eo_rfc3339 O = false -> (n < 1000000000)%N ->
+    (- 9223372036854775808 <= s < 9223372036854775807)%Z -> (0 <= d)%Z -> (d + 1 < maxdepth D)%Z ->
+    time_of_float (epoch_f64 s n) = Ok i ->
+    ok_ft O D d (ITime s n) e tl /\
+    norm_ft O D (ITime s n) = (if (s =? zero_time_sec)%Z && (n =? 0)%N then INil else i).
+  Proof. exact cbor_time_ok_ft. Qed.
+  Print Assumptions C11_cbor_floattime_admitted.
+
+  (* nothing is lost with respect to C11_cbor_seq: what it admits is admitted, with the same decoded value *)
+  Theorem C11_cbor_floattime_subsumes : forall (O : eopts) (D : dopts) (d : Z) (i : item) (e : unit) (tl : list N),
+    CborI.ok_t O D d i e tl -> ok_ft O D d i e tl /\ norm_ft O D i = norm_t O D i.
+  Proof. exact ok_t_ok_ft. Qed.
+  Print Assumptions C11_cbor_floattime_subsumes.
 
   (* the float form of times: PARTIAL as before *)
   (* sequences: any number of values, any consumers.  PARTIAL: items whose decode law is proved
@@ -307,6 +371,73 @@ Section Json.
       /\ advance s' = advance (mkst 0 tl) /\ (length tl - 1 <= length (inp s') <= length tl + 1)%nat.
   Proof. exact ProofsJson.json_seq_c09. Qed.
   Print Assumptions C11_json_seq_partial.
+
+  (* ---- the same three with every dischargeable hypothesis removed.  Of the eleven leaf laws the json
+     wire lemmas need (Wire/JsonRT.v leaf_laws), the three string laws and the digit law are PROVED for
+     C09's code (W_json_leaf_str_int); the two integer read-back laws are proved except that under
+     PreferFloat the integer text goes to parseFloat64; the two float read-back laws are guarded, per float
+     and option vector, by [num_read_ok] inside [jwf] (a float whose text is a bare integer literal of 2^63
+     or more is NOT read back under SignedInteger without PreferFloat: strconv writes 1e19 as
+     10000000000000000000 — F15-1's class, W_json_float_bareint_refuted) and under that guard reduce, through
+     C09's parseUint64_simple, to "parseFloat64 accepts the text".  What is left is about the four functions
+     of the oracle O only, each clause a true statement about strconv / time, spelled out with no leaf, no
+     decoder option vector and no number reader in it as [JsonOracle.strconv_time_oracle_laws O]:
+       the time text holds no quote / backslash;  a finite float's text is non-empty and made of 0-9 . + - e E;
+       parseFloat64 accepts the float texts and the decimal integer texts the encoder writes.
+     C11_json_oracle_exact: this is EQUIVALENT to the float_time_laws of the _partial statements (nothing was
+     added).  Nothing else is assumed: tokenizer, container grammar, walker, sequences, string quoting /
+     unquoting, integer texts, the integer-or-float decision of the number reader are proved. ---- *)
+  Theorem C11_json_oracle_exact : forall (O : oracle),
+    JsonOracle.strconv_time_oracle_laws O <-> float_time_laws (c09_leaf_of O).
+  Proof. exact JsonOracle.oracle_laws_iff. Qed.
+  Print Assumptions C11_json_oracle_exact.
+
+  (* the UNGUARDED law characterised: a number text is accepted back under EVERY decoder option vector iff
+     parseFloat64 accepts it and it is not a bare digit text worth 2^63 or more ([reads_back]); the guard
+     [num_read_ok] of jwf excludes exactly the second failure *)
+  Theorem C11_json_reads_back : forall (O : oracle) (t : list N),
+    (forall D, exists i, naked_num (c09_leaf_of O) D t = Ok i) <-> JsonOracle.reads_back O t.
+  Proof. exact JsonOracle.naked_num_reads_back. Qed.
+  Print Assumptions C11_json_reads_back.
+
+  (* a text with a '.', an 'e' or a sign in it is never taken for an integer *)
+  Theorem C11_json_reads_back_nondigit : forall (O : oracle) (t : list N),
+    forallb Verif.C09.Model.isdig t = false -> (exists v, o_pf O t = Some v) -> JsonOracle.reads_back O t.
+  Proof. exact JsonOracle.reads_back_nondigit. Qed.
+  Print Assumptions C11_json_reads_back_nondigit.
+
+  Theorem C11_json_skip : forall (O : oracle), JsonOracle.strconv_time_oracle_laws O -> let L := c09_leaf_of O in
+    forall (o : eopts) (D : dopts) (lvl : N) (i : item) (s : st) (tl : list N) (fuel : nat) (dp : Z),
+    jwf L o D false i -> (dp + Z.of_nat (depth i) < maxdepth D)%Z ->
+    advance s = advance (mkst 0 (enc_at L o false lvl i ++ tl)) -> delim_ok (isnum L o false i) tl ->
+    (2 * length (enc_at L o false lvl i) <= fuel)%nat ->
+    dec L D fuel dp false s = Ok (norm L o D false i, after (isnum L o false i) tl)
+    /\ nvb s = Ok (enc_at L o false lvl i, after (isnum L o false i) tl).
+  Proof. exact JsonOracle.json_skip_full. Qed.
+  Print Assumptions C11_json_skip.
+
+  Theorem C11_json_raw : forall (O : oracle), JsonOracle.strconv_time_oracle_laws O -> let L := c09_leaf_of O in
+    forall (o : eopts) (D : dopts) (lvl : N) (i : item) (s : st) (tl tl' : list N) (b : list N) (s' : st),
+    jwf L o D false i -> (Z.of_nat (depth i) < maxdepth D)%Z ->
+    advance s = advance (mkst 0 (enc_at L o false lvl i ++ tl)) -> delim_ok (isnum L o false i) tl ->
+    delim_ok (isnum L o false i) tl' ->
+    nvb s = Ok (b, s') ->
+    b = enc_at L o false lvl i
+    /\ dec L D (2 * length b) 0 false (st0 (b ++ tl')) = Ok (norm L o D false i, after (isnum L o false i) tl').
+  Proof. exact JsonOracle.json_raw_full. Qed.
+  Print Assumptions C11_json_raw.
+
+  Theorem C11_json_seq : forall (O : oracle), JsonOracle.strconv_time_oracle_laws O -> let L := c09_leaf_of O in
+    forall (o : eopts) (D : dopts) (TY V : Type) (typed : TY -> item -> V)
+      (vs : list item) (ms : list (mode TY)) (tl : list N),
+    length ms = length vs -> Seq.ok_seq (InstJson.F L o D) (InstJson.ok L o D) vs tt tl ->
+    exists ns s',
+      Seq.dec_seq (InstJson.F L o D) TY V typed ms (st0 (Seq.bytes_seq (InstJson.F L o D) vs tt ++ tl))
+        = Ok (Seq.project (InstJson.F L o D) TY V typed ms vs tt, ns, s')
+      /\ Forall2 (close 1) ns (Seq.rems (InstJson.F L o D) vs tt tl)
+      /\ advance s' = advance (mkst 0 tl) /\ (length tl - 1 <= length (inp s') <= length tl + 1)%nat.
+  Proof. exact JsonOracle.json_seq_full. Qed.
+  Print Assumptions C11_json_seq.
 End Json.
 
 (* ---------------- non-vacuity ---------------- *)
@@ -395,3 +526,73 @@ Proof.
         split; vm_compute; [discriminate|reflexivity].
   - eexists. split; vm_compute; reflexivity.
 Qed.
+
+(* the oracle assumption of C11_json_skip / raw / seq is satisfiable (toy oracle: every float is written
+   1.5, every number text parses, the time text is empty); [reads_back] on concrete texts: with an oracle whose
+   parseFloat64 accepts everything, 1.5 and 1e+21 read back, the bare digit string 9223372036854775808 = 2^63
+   does not (SignedInteger would refuse it) while 9223372036854775807 does *)
+Example C11_json_oracle_nonvacuous :
+  JsonOracle.strconv_time_oracle_laws JsonLeaf.toy_oracle /\
+  JsonOracle.reads_back JsonLeaf.toy_oracle [49; 46; 53]%N /\
+  JsonOracle.reads_back JsonLeaf.toy_oracle [49; 101; 43; 50; 49]%N /\
+  JsonOracle.reads_back JsonLeaf.toy_oracle [57; 50; 50; 51; 51; 55; 50; 48; 51; 54; 56; 53; 52; 55; 55; 53; 56; 48; 55]%N /\
+  ~ JsonOracle.reads_back JsonLeaf.toy_oracle [57; 50; 50; 51; 51; 55; 50; 48; 51; 54; 56; 53; 52; 55; 55; 53; 56; 48; 56]%N.
+Proof.
+  split; [exact JsonOracle.toy_oracle_laws |].
+  split; [apply C11_json_reads_back_nondigit; [reflexivity | eexists; reflexivity] |].
+  split; [apply C11_json_reads_back_nondigit; [reflexivity | eexists; reflexivity] |].
+  split.
+  - split; [eexists; reflexivity |]. intros u H. vm_compute in H. inversion H. reflexivity.
+  - intros [_ H]. specialize (H 9223372036854775808%Z eq_refl). vm_compute in H. discriminate.
+Qed.
+
+(* cbor, epoch form (TimeRFC3339 off): a time with a fraction, an array holding an integral time and a number,
+   and a time before the epoch, read back as raw / naked / skip on one Decoder: the premises of
+   C11_cbor_seq_floattime hold, the second call returns the instants rounded to the microsecond *)
+Example C11_cbor_seq_floattime_nonvacuous :
+  let O := Cbor.mkeo false false false false in
+  let D := Cbor.mkdo false false false 0 in
+  let vs := [ITime 1700000000 123456789%N; IArr [ITime 1 400%N; IUint 3%N; ITime (-2) 500000499%N]; ITime (-2) 500000499%N] in
+  Seq.ok_seq (SeqFT.Fft O D 0) (SeqFT.ok_ft O D 0) vs tt [] /\
+  Seq.dec_seq (SeqFT.Fft O D 0) unit unit (fun _ _ => tt) [MRaw; MNaked; MSkip] (Seq.bytes_seq (SeqFT.Fft O D 0) vs tt)
+    = Ok ([ORaw [193; 251; 65; 217; 84; 252; 64; 7; 230; 184]%N;
+           ONaked (IArr [ITime 1 0%N; IUint 3%N; ITime (-2) 500000000%N]); OSkipped], [24; 10; 0]%nat, []).
+Proof.
+  cbv zeta. split; [| vm_compute; reflexivity].
+  cbn [Seq.ok_seq]. split; [|split; [|split; [|exact I]]].
+  - refine (proj1 (C11_cbor_floattime_admitted _ _ 0 _ _ (ITime 1700000000 123457000) tt [] _ _ _ _ _ _));
+      try (vm_compute; reflexivity); try (vm_compute; discriminate); split; vm_compute; [discriminate | reflexivity].
+  - unfold SeqFT.ok_ft.
+    match goal with |- context [CborConv.tree_of ?O ?i] =>
+      let t := eval vm_compute in (CborConv.tree_of O i) in replace (CborConv.tree_of O i) with t by (vm_compute; reflexivity) end.
+    split; [|split; [|split; [|split]]].
+    + cbn [wf]. repeat split; vm_compute; reflexivity.
+    + cbn [CborConv.plain]. repeat split; vm_compute; (discriminate || reflexivity).
+    + cbn [CborFT.lib_supports_ft]. split; [split; [|split; [|split; [|exact I]]] | vm_compute; reflexivity].
+      * right. right. split; [reflexivity|]. exists 4607182418800017408%N, (ITime 1 0). split; vm_compute; reflexivity.
+      * intro H; discriminate H.
+      * right. right. split; [reflexivity|]. exists 13832806255468478464%N, (ITime (-2) 500000000). split; vm_compute; reflexivity.
+    + vm_compute. reflexivity.
+    + vm_compute. reflexivity.
+  - refine (proj1 (C11_cbor_floattime_admitted _ _ 0 _ _ (ITime (-2) 500000000) tt [] _ _ _ _ _ _));
+      try (vm_compute; reflexivity); try (vm_compute; discriminate); split; vm_compute; [discriminate | reflexivity].
+Qed.
+
+(* the exact loss on sample instants: inside +-2^33 s the decoded instant is the encoder's microsecond rounding
+   (halfway up), before the epoch too, up to the last microsecond of a second; at 2^33 s the double's
+   resolution (2^-19 s) loses the microsecond (1 -> 2, 3 -> 4 microseconds); at 2^34 s a microsecond vanishes;
+   year 9999's last microsecond becomes the next second; integer seconds above 2^53 lose low bits;
+   above 2^62 the decoder refuses (the only case the premise time_of_float .. = Ok excludes) *)
+Example C11_cbor_floattime_loss_nonvacuous :
+  Cbor.time_of_float (CborFT.epoch_f64 1700000000 123456789) = Ok (ITime 1700000000 123457000) /\
+  Cbor.time_of_float (CborFT.epoch_f64 (-2) 500000499) = Ok (ITime (-2) 500000000) /\
+  Cbor.time_of_float (CborFT.epoch_f64 0 999999500) = Ok (ITime 1 0) /\
+  Cbor.time_of_float (CborFT.epoch_f64 8589934591 999999000) = Ok (ITime 8589934591 999999000) /\
+  Cbor.time_of_float (CborFT.epoch_f64 (-8589934591) 1000) = Ok (ITime (-8589934591) 1000) /\
+  Cbor.time_of_float (CborFT.epoch_f64 8589934592 1000) = Ok (ITime 8589934592 2000) /\
+  Cbor.time_of_float (CborFT.epoch_f64 8589934592 3000) = Ok (ITime 8589934592 4000) /\
+  Cbor.time_of_float (CborFT.epoch_f64 17179869184 1000) = Ok (ITime 17179869184 0) /\
+  Cbor.time_of_float (CborFT.epoch_f64 253402300799 999999000) = Ok (ITime 253402300800 0) /\
+  Cbor.time_of_float (CborFT.epoch_f64 9007199254740993 0) = Ok (ITime 9007199254740992 0) /\
+  Cbor.time_of_float (CborFT.epoch_f64 4611686018427389000 0) = Err EOverflow.
+Proof. vm_compute. repeat apply conj; reflexivity. Qed.
